@@ -33,6 +33,11 @@ const (
 	DefaultRefreshTimeout = 5 * time.Second
 )
 
+// eventQueueSize is the number of events from the control connection that can wait for the cluster's event loop. The
+// events are handed over by the control connection's read goroutine: if that blocked while the loop is itself waiting
+// for a response on that connection (refreshing hosts, reconnecting) the response could never be read.
+const eventQueueSize = 1024
+
 type Event interface {
 	isEvent() // Marker method for the event interface
 }
@@ -145,7 +150,7 @@ func ConnectCluster(ctx context.Context, config ClusterConfig) (*Cluster, error)
 		controlConn:      nil,
 		hosts:            nil,
 		currentHostIndex: 0,
-		events:           make(chan *frame.Frame),
+		events:           make(chan *frame.Frame, eventQueueSize),
 		addListener:      make(chan ClusterListener),
 		listeners:        make([]ClusterListener, 0),
 	}
